@@ -37,6 +37,9 @@ var vhReadFails bool
 var vhReadPath string
 
 func vhOsReadFile(name string) ([]byte, error) {
+	if vStubOn("fs") {
+		return vhOsReadFileFS(name)
+	}
 	if !vStubOn("readfile") {
 		return os.ReadFile(name)
 	}
